@@ -177,7 +177,7 @@ def step (s : DState) (toks : List String) : DState × String :=
       let c := Config.fromCli mode noq nostall minif stale timeout
       ({ s with cS := c, cA := c, cC := c }, "cfg=" ++ showCfg c)
     | _, _, _, _, _, _ => (s, "bad-op")
-  | ["env", st, cw] =>
+  | ["env", st, cw, _recipe] =>
     match kv [st] "stats", kvBool [cw] "cw" with
     | some st, some cw =>
       match parseOptJson st with
@@ -193,6 +193,9 @@ def step (s : DState) (toks : List String) : DState × String :=
   | ["cw", "malformed"] =>
     let s' := { s with malformed := s.malformed + 1 }
     (s', s!"cw={s'.windows}/{s'.malformed}")
+  | ["session"] =>
+    -- the harness replays the case's lines through the real socket / stdin listeners; no model state
+    (s, "session-ok")
   | ["race", ms] =>
     -- concurrent setters / snapshot readers on the real code; the case then continues from a
     -- deterministic store of the last value (see harness).  The model applies that last store.
